@@ -27,7 +27,7 @@ PRECISIONS = [1.0, 0.5, 0.1, 0.01, 0.001, 1e-4, 1e-5, 1e-6]
 
 # ------------------------------------------------------------------ stage G: the anchored functions translated (DESIGN.md 2.5b)
 BRIDGE_SPEC = {
-    'translator': 'cxx2lean_state',
+    'vector_encoding': 'plain',      # std::vector as a plain List (getD / set), with opaque Eigen elements below
     'id': 'C16',
     'sources': ['src/monitoring/OnlineAverage.cpp', 'src/monitoring/OnlineVariance.cpp'],
     'headers': ['romea_core_common/containers/Eigen/RingOfEigenVector.hpp'],
